@@ -139,7 +139,7 @@ Print Assumptions C14_partial_coarse_fragment.
 From CGV Require Import Reader.ReaderImpl Reader.Grammar Reader.Lin Reader.ReaderCheck
      Resolve.GraphOps Resolve.Pipeline Resolve.CopyProofs
      Frag.NDict Frag.StripImpl Frag.FragText Hydro.Hydrogens Hydro.Fragments
-     Hydro.SquashDefs Hydro.HydroDefs Resolve.PipelineFull Compose.CutModel Compose.CutHydrogens Reader.ReaderUnit Dialect.ReturnedAnnot Dialect.ReturnedCar Dialect.ReturnedExample Dialect.BaseAnnotUnits Dialect.MachineAnnot Dialect.BaseAnnot Dialect.FragAnnot Dialect.CopyAnnot Dialect.TemplateAnnot.
+     Hydro.SquashDefs Hydro.HydroDefs Resolve.PipelineFull Compose.CutModel Compose.CutHydrogens Reader.ReaderUnit Frag.SmilesParse Frag.SmilesSpec Frag.Template Frag.TemplateProofs Dialect.ReturnedAnnot Dialect.ReturnedCar Dialect.ReturnedExample Dialect.TextAnnot Dialect.BaseAnnotUnits Dialect.MachineAnnot Dialect.BaseAnnot Dialect.FragAnnot Dialect.CopyAnnot Dialect.TemplateAnnot.
 Open Scope Z_scope.
 
 (** ---- base graph ---- *)
@@ -297,7 +297,7 @@ Proof. exact annotation_reaches_returned_graph_full. Qed.
     not written by a step (fragid, mapping, ez_isomer_atoms, hcount, atomname, ez_isomer, ez_isomer_class, aromatic).
     The only extra hypothesis: the attribute lists of the molecule handed to rebuild_h_atoms are dicts (distinct keys) *)
 Theorem C14_transcript_contract_leaves_alone : forall m2 g1, Hydrogens.transcript_contract m2 g1 = true -> dicts m2 ->
-  node_keys g1 = node_keys m2 /\ (forall y x, has_edge g1 y x = has_edge m2 y x) /\
+  node_keys g1 = node_keys m2 /\ (forall y x, NxGraph.has_edge g1 y x = NxGraph.has_edge m2 y x) /\
   (forall k key, key <> S "aromatic" -> node_get g1 k key = node_get m2 k key).
 Proof. intros m2 g1 H D. destruct (contract_car_ok m2 g1 H D) as [A B0 C0]. auto. Qed.
 Theorem C14_annotation_reaches_returned_graph_any_transcript : forall C, wf_cut C -> forall fd, templates_ok C fd -> wf_dict fd ->
@@ -333,6 +333,76 @@ Example C14_returned_annotation_nonvacuous :
   | None => False
   end.
 Proof. exact returned_annotation_example. Qed.
+(** ---- FROM THE TEXT of the fragment definition to the returned graph ----
+    [toks]/[dc]: the fragment text as tokens with its descriptors (strip component's domain: wf, not excluded);
+    [g0]: pysmiles.read_smiles(clean text) as a transcript (third party; used only through "atom i is node i of g0");
+    [T] = what read_fragment_smiles' post-processing (Hydro/Fragments.read_fragment_post) makes of it with the attribute
+    dict strip_bonding_descriptors returned; the molecule a well-formed cut whose fragment `name` is [T]; one all-atom
+    resolve() (PipelineFull.resolve_step_full) under any aromaticity transcript [g1] Hydro's contract admits.
+    An annotation `key = v` parsed from the i-th atom token (i = atoms_of pre) is attribute `key` = v of the copy of
+    that atom in EVERY part named `name` (every coarse node using the fragment); keys written by a step are excluded *)
+Theorem C14_text_annotation_reaches_returned_graph : forall fo name toks dc,
+  FragText.wf toks dc = true -> excluded toks dc = false ->
+  forall clean desc ez ann, strip_bonding_descriptors fo (FragText.render (decorate toks dc)) = Ok (clean, desc, ez, ann) ->
+  forall g0 bonding ezl T, NoDup (node_keys g0) -> read_fragment_post g0 name bonding ezl (ann_list ann) = Ok T ->
+  forall C, wf_cut C -> forall fd, templates_ok C fd -> wf_dict fd -> fd_get name fd = Some T ->
+  forall B, is_base C B ->
+  (forall x, In x (flat C) ->
+     (exists e, aget (S "element") (payload C x) = Some e) /\ (exists q, aget (S "charge") (payload C x) = Some q) /\
+     (exists h, aget (S "hcount") (payload C x) = Some (VInt h)) /\ Hydrogens.is_H (payload C x) = false) ->
+  forall prev g1 fo_, meta_of prev = B -> resolve_step_full true true fd prev (Some g1) = Ok fo_ -> dicts (fo_m3 fo_) ->
+  exists m, sort_mapping (fo_m4 fo_) = Ok m /\ SortGraphProofs.inj_on (map_get m) (node_keys (fo_m4 fo_)) /\
+    forall pre body annot post a key v n0,
+      decorate toks dc = pre ++ ITok (TBracket body annot) :: post ->
+      fragment_node_parser fo (annot_text annot) = Ok a -> In (key, v) a ->
+      gfind (Z.of_nat (atoms_of pre)) g0 = Some n0 ->
+      ~ In key written_keys -> returned_key key -> key <> S "aromatic" ->
+      forall p xs x, nth_error (c_parts C) p = Some (name, xs) -> nth_error xs (atoms_of pre) = Some x ->
+        node_get (fo_mol fo_) (map_get m (phi C x)) key = Some v.
+Proof. exact text_annotation_reaches_returned_graph. Qed.
+(** ... and an atom j of the fragment whose own token does not set `key` (nor `element`), for which pysmiles sets no
+    such key, has no `key` on any of its copies: no other heavy atom gains the annotation *)
+Theorem C14_text_annotation_not_gained : forall fo name toks dc,
+  FragText.wf toks dc = true -> excluded toks dc = false ->
+  forall clean desc ez ann, strip_bonding_descriptors fo (FragText.render (decorate toks dc)) = Ok (clean, desc, ez, ann) ->
+  forall g0 bonding ezl T, NoDup (node_keys g0) -> read_fragment_post g0 name bonding ezl (ann_list ann) = Ok T ->
+  forall C, wf_cut C -> forall fd, templates_ok C fd -> wf_dict fd -> fd_get name fd = Some T ->
+  forall B, is_base C B ->
+  (forall x, In x (flat C) ->
+     (exists e, aget (S "element") (payload C x) = Some e) /\ (exists q, aget (S "charge") (payload C x) = Some q) /\
+     (exists h, aget (S "hcount") (payload C x) = Some (VInt h)) /\ Hydrogens.is_H (payload C x) = false) ->
+  forall prev g1 fo_, meta_of prev = B -> resolve_step_full true true fd prev (Some g1) = Ok fo_ -> dicts (fo_m3 fo_) ->
+  exists m, sort_mapping (fo_m4 fo_) = Ok m /\
+    forall j key n,
+      gfind (Z.of_nat j) T = Some n ->
+      has_node g0 (Z.of_nat j) = true -> node_get g0 (Z.of_nat j) key = None ->
+      (forall a, nd_get j ann = Some a -> aget key a = None /\ aget (S "element") a = None) ->
+      (nd_get j ann <> None \/ node_get g0 (Z.of_nat j) (S "element") <> Some (VStr (S "H"))) ->
+      ~ In key written_keys -> ~ In key default_keys -> returned_key key -> key <> S "aromatic" ->
+      forall p xs y, nth_error (c_parts C) p = Some (name, xs) -> nth_error xs j = Some y ->
+        node_get (fo_mol fo_) (map_get m (phi C y)) key = None.
+Proof. exact text_annotation_not_gained. Qed.
+(** the exact value of every other key of a template atom: the annotation's, else pysmiles' *)
+Theorem C14_template_exact : forall g0 fragname bonding ez attributes g j key,
+  read_fragment_post g0 fragname bonding ez attributes = Ok g ->
+  NoDup (node_keys g0) -> NoDup (map fst attributes) -> (forall i a, In (i, a) attributes -> NoDup (map fst a)) ->
+  has_node g0 j = true ->
+  (In j (map fst attributes) \/ node_get g0 j (S "element") <> Some (VStr (S "H"))) ->
+  (forall a, zassoc j attributes = Some a -> aget (S "element") a = None) ->
+  ~ In key written_keys -> ~ In key default_keys ->
+  node_get g j key = annotated_value key (zassoc j attributes) (node_get g0 j key).
+Proof. exact template_exact_post. Qed.
+(** the strip component's text-only template model (C13_template_of_render: fragment_template = template_spec;
+    C13_template_nodes) carries the same dictionary on node i: the two models of read_fragment_smiles agree there *)
+Theorem C14_frag_template_node_annotation : forall fo name toks dc T clean d e a G pre body annot post an key v base,
+  FragText.wf toks dc = true -> excluded toks dc = false ->
+  template_spec fo name toks dc = Ok T -> strip_spec fo toks dc = Ok (clean, d, e, a) -> graph_of false toks = Ok G ->
+  decorate toks dc = pre ++ ITok (TBracket body annot) :: post ->
+  fragment_node_parser fo (annot_text annot) = Ok an -> In (key, v) an ->
+  nth_error (g_nodes G) (atoms_of pre) = Some base ->
+  exists nd, nth_error (t_nodes T) (atoms_of pre) = Some nd /\ aget key nd = Some v.
+Proof. exact frag_template_node_annotation. Qed.
+
 (** the same at the end of the instantiation loop, for coarse and all-atom levels alike *)
 Theorem C14_disconnected_copy_exact : forall C, wf_cut C -> forall fd, templates_ok C fd -> wf_dict fd ->
   forall B, is_base C B -> forall m1 fg1 p name xs T i x n key,
@@ -364,5 +434,9 @@ Print Assumptions C14_hydrogens_do_not_overwrite.
 Print Assumptions C14_annotation_reaches_returned_graph.
 Print Assumptions C14_annotation_reaches_returned_graph_full.
 Print Assumptions C14_disconnected_copy_exact.
+Print Assumptions C14_text_annotation_reaches_returned_graph.
+Print Assumptions C14_text_annotation_not_gained.
+Print Assumptions C14_template_exact.
+Print Assumptions C14_frag_template_node_annotation.
 Print Assumptions C14_transcript_contract_leaves_alone.
 Print Assumptions C14_annotation_reaches_returned_graph_any_transcript.
